@@ -115,6 +115,15 @@ func c01Programs(th bool) []map[string]interface{} {
 			out = append(out, graphCase([]gnode{{c.op, "X,W,R,,,H", o, "hidden_size=2"}}, rin, ri, declared, []string{"X"}))
 		}
 	}
+	// an omitted output followed, later in the graph, by a skipped optional input (both spelled "")
+	{
+		ri := []string{"W:1,2,2", "R:1,2,2", "B:1,4"}
+		out = append(out, graphCase([]gnode{{"RNN", "X,W,R,B", ",q", "hidden_size=2"}, {"RNN", "X,W,R,B,,q", "y2,q2", "hidden_size=2"}}, rin, ri, []string{"q", "y2", "q2"}, []string{"X"}))
+		out = append(out, graphCase([]gnode{{"LSTM", "X,W4,R4", "p,,r", "hidden_size=2"}, {"GRU", "X,W3,R3,,,r", "y2", "hidden_size=2"}, {"Add", "p,y2", "o", ""}}, rin, []string{"W4:1,8,2", "R4:1,8,2", "W3:1,6,2", "R3:1,6,2"}, []string{"o", "r"}, []string{"X"}))
+	}
+	// a tensor read by a node that scales it (Gemm's C with beta != 1, alpha != 1) and read again afterwards
+	out = append(out, graphCase([]gnode{{"Gemm", "x,w,c2", "s", "beta=2;alpha=3"}, {"Add", "s,c2", "o", ""}, {"Mul", "x,w", "o2", ""}}, inputs, []string{"w:2,2", "c2:2,2"}, []string{"o", "s", "o2"}, sup))
+	out = append(out, graphCase([]gnode{{"Gemm", "x,y,y", "s", "beta=2;transA=1"}, {"Sub", "s,y", "o", ""}, {"Sub", "o,x", "o2", ""}}, inputs, inits, []string{"o2", "s"}, sup))
 	// Constant nodes (no inputs) and two Constants with different attributes
 	out = append(out, graphCase([]gnode{{"Constant", "", "c1", "value_float=2"}, {"Constant", "", "c2", "value_float=3"}, {"Mul", "x,c1", "a", ""}, {"Add", "a,c2", "o", ""}}, inputs, inits, []string{"o", "c1", "c2"}, sup))
 	return out
